@@ -162,8 +162,6 @@ def _describe(rec):
 
 def run(ctx):
     warnings.filterwarnings("ignore")
-    import porepy as pp
-
     ctx.rule = ("TLC enumerates (a) every (fine, coarse_dims) with coarse <= fine per direction (2D fine <= 7, 3D sample) "
                 "for partition_structured and (b) every non-empty cell subset of small real grids (Cartesian 1D-3D, "
                 "simplex, fractured; <= 9 cells) for overlap (node / face criterion, 1..L layers) and extract_subgrid "
@@ -172,7 +170,7 @@ def run(ctx):
     layers = 2 if ctx.quick else 3
     broken = []
     recipes, gs, Gs, geoms = load_parents(parents(ctx), broken)
-    consts = dict(MaxFine2=7, MaxFine3=(3 if ctx.quick else 4), Grids=Gs, MaxLayers=layers)
+    consts = dict(MaxFine2=7, MaxFine3=(3 if ctx.quick else 5), Grids=Gs, MaxLayers=layers)
     res = ctx.tlc(*tlc.gen(ctx.work / "enum", "MC_PartitionEnum", "PartitionEnum", consts,
                            invariants=["Laws", "Emit"]), allow_violation=False, workers=8)
     cases = []
@@ -217,7 +215,6 @@ def run(ctx):
     ctx.sample(next(c for c in cases if c["kind"] == "coord" and c["n"] == 3))
     ctx.exhaustive = True
     ctx.extra["enumerated_inputs"] = len(res.records)
-    del pp
 
 
 def replay(ctx, body):
